@@ -31,6 +31,8 @@ TEMPLATES = {
     "trailing": "Mark: M1\nBlock: B1\n    Mark: M2\n    End block\n\n# comment\n\nMark: M3\n\n",
     "block_in_watch": "Watch: In1 > 0\n    Block: BW\n        Mark: W1\n        End block\n    Mark: W2\nBlock: B1\n    Mark: M1\n    Wait: 0.6s\n    End block\nMark: M2\n",
     "block_in_alarm": "Alarm: In1 > 0\n    Block: BA\n        Mark: A1\n        End block\nMark: M1\nBlock: B1\n    Mark: M2\n    End block\nMark: M3\n",
+    # two interrupt flows each starting a block while the main flow's block is active: both must queue for the lock
+    "two_watch_blocks": "Watch: In1 > 0\n    Block: WB1\n        Mark: W1\n        End block\nWatch: In1 > 0\n    Block: WB2\n        Mark: W2\n        End block\nBlock: B1\n    Mark: M1\n    Wait: 0.5s\n    End block\nMark: M2\n",
     # openers whose body is empty or only a comment / blank line: the following lines belong to the enclosing scope
     "empty_openers": "Block: B1\n    Watch: In1 > 0\n    # comment\n    Mark: M1\n    End block\nMark: M2\nWatch: In1 > 0\n\nMark: M3\n",
 }
@@ -257,10 +259,25 @@ def check_trace(sym, sc: Scenario, pcode: str, want: set, forced_ids=(), cancell
     # block events: engine tick numbers -> scenario tick index (engine tick number == scenario tick index)
     iv = {}          # block name -> list of [start tick, end tick or None] (a block in an Alarm body runs once per invocation)
     stack = []
+    block_ancestors = {}
+    for ln0 in lines:
+        if ln0.name == "Block":
+            anc, q0 = [], ln0.parent
+            while q0 is not None:
+                if q0.name == "Block":
+                    anc.append(q0.arg)
+                q0 = q0.parent
+            block_ancestors[ln0.arg] = anc
+    tag0 = "C05" if "C05" in want else ("C02" if "C02" in want else "C04")
+    sym.check("Paused" not in sc.states, f"{tag0}|unexpected-method-error", f"System State became Paused at tick {sc.states.index('Paused') if 'Paused' in sc.states else None} although the scenario contains no pause: a method error occurred")
     for (t, kind, name) in sc.block_events:
         if name == "root":
             continue
         if kind == "start":
+            if "C05" in want:
+                # single nested chain: a block may only start while every active block is one of its ancestors
+                sym.check(all(bx in block_ancestors.get(name, []) for bx in stack), "C05|block-started-beside-active-block",
+                          f"tick {t}: block {name!r} started while the active chain is {stack} (its enclosing blocks are {block_ancestors.get(name)})")
             stack.append(name)
             iv.setdefault(name, []).append([t, None])
         else:
